@@ -111,7 +111,7 @@ def render(P, rng, opts=None):
         if o["indent"] == "depth":
             ind = "  " * st.depth
         elif o["indent"] == "random":
-            ind = " " * rng.randrange(0, 10)
+            ind = " " * rng.randrange(0, o.get("indent_max", 10))
             if rng.random() < o["p_tab"]:
                 ind = "\t" + ind
         else:
@@ -209,3 +209,61 @@ def _joinable(st):
     if st.kind in ("contains", "type_contains"):
         return False
     return True
+
+
+def logical_text(text):
+    """Rough logical-line view of free-form text: trailing comments dropped,
+    continuation lines joined with one blank (used only by finding predicates)."""
+    import re
+
+    out = []
+    cur = ""
+    cont = False
+    for raw in text.split("\n"):
+        l = raw
+        # drop a trailing comment (outside quotes)
+        q = None
+        cut = None
+        for i, ch in enumerate(l):
+            if q:
+                if ch == q:
+                    q = None
+            elif ch in "'\"":
+                q = ch
+            elif ch == "!":
+                cut = i
+                break
+        if cut is not None:
+            l = l[:cut]
+        if not l.strip():
+            continue
+        s = l.strip()
+        if cont and s.startswith("&"):
+            s = s[1:]
+        ends = s.rstrip().endswith("&")
+        if ends:
+            s = s.rstrip()[:-1]
+        cur = (cur + " " + s) if cont else s
+        if ends:
+            cont = True
+        else:
+            out.append(cur)
+            cur = ""
+            cont = False
+    if cur:
+        out.append(cur)
+    return "\n".join(out)
+
+
+PAREN_COMPLEX_BLANK = None
+
+
+def known_rejection_key(text):
+    """Mechanism key of a known reason for which a valid free-form layout is
+    rejected, decided from the text alone; None if no known mechanism applies."""
+    import re
+
+    lt = logical_text(text)
+    if re.search(r"\(\s*\(\s*[-+.\w]+\s*,\s*[-+.\w]+\s*\)\s+\)", lt):
+        return "parenthesised-complex-literal-followed-by-blank"
+    return None
